@@ -50,7 +50,8 @@ def dimension_forms(rng):
         forms.append(({}, None, optional))
     for dim in ({'size': '3'}, {'size': '2', 'size2': '4'}, {'isVariableSize': 'true'}, {'isVariableSize': 'true', 'size': '5'},
                 {'isVariableSize': 'true', 'variableSizeFieldType': 'u8'}, {'isVariableSize': 'true', 'variableSizeFieldName': 'cnt2', 'size': '2'},
-                {'variableSizeFieldName': '@cnt'}, {'size': 'THIS_IS_VARIABLE_SIZE_ARRAY'}, {'size': 'K'},
+                {'variableSizeFieldName': '@cnt'}, {'size': '4', 'variableSizeFieldName': '@cnt'}, {'size': '4', 'isVariableSize': 'true', 'variableSizeFieldName': '@cnt'},
+                {'size': 'THIS_IS_VARIABLE_SIZE_ARRAY'}, {'size': 'K'},
                 {'size': 'K+1', 'size2': '2'}, {'size': '2', 'size2': 'K-1'}, {'size': 'K_2', 'size2': '(K)'},
                 {'size': '(K+1)+(K_2+1)', 'size2': '2'}, {'size': '2', 'size2': '(K)-(1)'}, {'size': '(K)*(2)+(1)', 'size2': '(K_2)'},
                 {'size': '-(K)+(7)', 'size2': '(2)+(1)'},
@@ -278,6 +279,9 @@ def patch_equivalences(chk, root):
          head + '<member name="a" type="u8" optional="1"/><member name="b" type="u16"><dimension isVariableSize="1"/></member><member name="c" type="u8" optional=" True "/>'
          '<member name="d" type="u8" optional="0"/><member name="e" type="u8" optional="false"/></struct></x>',
          [], 'struct T { u32 n; u8* a; u32 b_len; u16 b<@b_len>; u8* c; u8 d; u8 e; };'),
+        ('an array counted by @n is dynamic, whatever size attribute stands beside it (seeded C17-r8)',
+         head + '<member name="x" type="u16"><dimension size="4" isVariableSize="true" variableSizeFieldName="@n"/></member><member name="t" type="u8"/></struct></x>',
+         [], 'struct T { u32 n; u16 x<@n>; u8 t; };'),
         ('shiftLeft / bitMaskOr in an array size (D98)', head + '<member name="x" type="u8"><dimension size="shiftLeft(1,2)"/></member><member name="y" type="u8"><dimension size="bitMaskOr(1,2)"/></member></struct></x>',
          [], 'struct T { u32 n; u8 x[4]; u8 y[3]; };'),
         ('patch file saved with a byte order mark (D93)', head + '<member name="x" type="u16"/></struct></x>', ['\ufeffT static x 3'], 'struct T { u32 n; u16 x[3]; };'),
